@@ -92,6 +92,35 @@ def result_type_dispatch(ctx, rid):
 
 
 
+def canonical_key_use(ctx, rid):
+    """In a term loop that canonicalises its key first (`k = squash_key(kp)`), the raw key is read by that call only:
+    a raw key can carry repeated or unsorted labels, so storing or unpacking it addresses a different term."""
+    P = ctx.prog
+    n = 0
+    for f in P.all_funcs():
+        if not f.module.name.endswith('._conversions') or f.outer is not None:
+            continue
+        for lp in [x for x in ast.walk(f.node) if isinstance(x, ast.For) and isinstance(x.target, ast.Tuple) and x.target.elts
+                   and isinstance(x.target.elts[0], ast.Name)]:
+            raw = x_raw = lp.target.elts[0].id
+            canon = [st for st in lp.body if isinstance(st, ast.Assign) and isinstance(st.value, ast.Call)
+                     and call_name(st.value) == 'squash_key' and len(st.value.args) == 1 and is_name(st.value.args[0], raw)
+                     and len(st.targets) == 1 and isinstance(st.targets[0], ast.Name) and st.targets[0].id != raw]
+            if not canon:
+                continue
+            n += 1
+            inside = {id(x) for x in ast.walk(canon[0])}
+            stale = [x for st in lp.body for x in ast.walk(st) if isinstance(x, ast.Name) and x.id == raw
+                     and isinstance(x.ctx, ast.Load) and id(x) not in inside]
+            ctx.inst(rid, f, stale[0] if stale else canon[0], not stale,
+                     "after `%s` only the canonical key is used" % src(canon[0]) if not stale else
+                     "the raw key `%s` is used at line %s after it was canonicalised into `%s`: for a key with repeated / unsorted "
+                     "labels the term is stored under (or unpacked from) the wrong key"
+                     % (raw, getattr(stale[0], 'lineno', '?'), src(canon[0].targets[0])))
+    if not n:
+        raise AnalysisError("canonical_key_use: no conversion loop with a canonicalised key found")
+
+
 def element_conversion(ctx, rid):
     """boolean_to_spin / spin_to_boolean convert the elements of a container by looking them up in the literal table (by
     value: 1, 1.0, numpy.int64(1) and True all find their entry); an element is not sent through a type dispatch again."""
@@ -164,6 +193,7 @@ def rules(ctx):
     ctx.inst('R04.2', tabs['spin_to_boolean'][0], 'convert table', s2b == {1: 0, -1: 1},
              "1 -> 0, -1 -> 1" if s2b == {1: 0, -1: 1} else "spin_to_boolean table is %s, documented {1: 0, -1: 1}" % s2b)
     element_conversion(ctx, 'R04.2')
+    canonical_key_use(ctx, 'R04.5')
     inv = bool(b2s) and bool(s2b) and {v: k for k, v in b2s.items()} == s2b
     ctx.inst('R04.2', tabs['spin_to_boolean'][0], 'tables are mutual inverses', inv,
              "mutual inverses" if inv else "the two tables are not inverse to each other")
